@@ -263,6 +263,7 @@ func c01StatusAs(r *core.Run, u *undoWorld, rule string) {
 
 func checkC10(r *core.Run) {
 	r.Explain = "Decided statically: (C10.status) every delivery of a branch rollback answers 'rollbacked' only on the nil-error edge of its own undo run (no answer remembered from an earlier delivery); (C10.tx) the undo routine runs in one database/sql transaction that is committed on every nil return and rolled back on every error return (shared with C01.tx), so a failed attempt leaves no partial compensation; (C10.marker) when no undo-log record exists the routine inserts a record whose status is the global-finished constant before Commit, and that constant is not one for which CanUndo answers true, so a repeated delivery returns without replaying and a late phase one cannot insert its undo log; (C10.late) the late flush inserts with the same statement and the same (branch_id, xid) argument positions as the marker, and its error reaches the AT commit's failure path (C02.fail). (C10.late, also) whoever inserts into undo_log through the insert functions returns every failure of the insert as an error, recognised or not. NOT decided: database state after retries at each statement index; the unique index itself (schema)."
+	r.Explain += " Round 8: (C10.late, also) the undo-log INSERT is a plain INSERT — no ON DUPLICATE KEY / IGNORE / REPLACE / ON CONFLICT form that would turn the duplicate of a rollback marker into success."
 	r.Trusted = []string{"go/types, go/cfg", "database/sql", "unique (xid, branch_id) index on undo_log (schema)"}
 	w := r.W
 	u := resolveUndoWorld(r, "C10.anchor")
@@ -388,8 +389,26 @@ func checkC10(r *core.Run) {
 						keyed = true
 					}
 				}
+				// (the statement put together from pieces — a builder, a column-list constant)
+				if strings.Contains(strings.ReplaceAll(strings.ToLower(strings.Join(stringConstsIn(g), "")), " ", ""), "(branch_id,xid,") {
+					keyed = true
+				}
 				if isInsert && keyed {
 					insertFns = append(insertFns, f)
+					// the insert is a plain INSERT: the unique (xid, branch_id) key is what makes the late flush of a
+					// branch that was already rolled back fail — an upsert / ignore / replace form lets it through
+					soft := ""
+					for _, s := range stringConstsIn(g) {
+						u := strings.ToUpper(s)
+						for _, kw := range []string{"ON DUPLICATE KEY", "INSERT IGNORE", "REPLACE INTO", "ON CONFLICT"} {
+							if strings.Contains(u, kw) {
+								soft = kw
+							}
+						}
+					}
+					r.Sites++
+					r.Check(soft == "", "C10.late", core.ShortKey(g.Obj)+" : the undo-log insert fails on an existing (xid, branch_id)", w.Pos(g.Decl.Pos()), "plain INSERT",
+						"the undo_log INSERT is written with "+soft+": where a record for (xid, branch_id) exists — the marker a rollback left — the statement succeeds instead of failing, so the late phase one of a rolled-back branch flushes, commits locally and its writes stay")
 				}
 			}
 		}
